@@ -237,7 +237,7 @@ def argparse_function(
                                     2
                                     if len(internal_body) > 1
                                     and isinstance(internal_body[1], Assign)
-                                    and internal_body[1].targets[0].id
+                                    and getattr(internal_body[1].targets[0], "id", None)
                                     == "argument_parser"
                                     else 1 :
                                 ]
